@@ -34,6 +34,9 @@ def run(ctx):
     util.add_split(specs)
     specs += util.orderbook_tail_specs(ctx.seed, 10 if ctx.tier == 'quick' else 60, 'c01ob_')
     specs += util.split_twin_specs(ctx.seed, 12 if ctx.tier == 'quick' else 80, 'c01tw_')
+    # nodes served only by windowed assets: steps without any dispatch at a node (gaps) between steps with dispatch
+    specs += gen.gen_many(ctx.seed, n // 3, dict(CFG, p_market=0.3, p_window=0.9, window_kinds=['inside', 'inside', 'left', 'right'], nodes=(2, 3), n_assets=(3, 6),
+                                                 p_coarse=0.0, p_periodic=0.0), 'c01gap_')
     specs = ctx.specs(specs)
     res = C.run_impl('portfolio', specs)
     exprs, owners = [], []
